@@ -241,4 +241,16 @@ theorem C02_skeleton_load :
     Sso.Generated.skel_sessions_UnmarshalSession =
       ["call:Unmarshal", "if{", "return", "}", "return"] := by decide
 
+/-- Tie (T1), second wave: helpers, stores and second callers on this property's path (aead_Marshal, aead_Unmarshal, aead_GenerateKey, sessions_MarshalSession) — call/branch/store skeletons
+regenerated from the source on every run against the expectations frozen here. -/
+theorem C02_wiring2 :
+    Sso.Generated.skel_aead_Marshal =
+      ["call:Marshal", "if{", "return", "}", "call:NewWriter", "call:Write", "call:Close", "call:Bytes", "call:Encrypt", "if{", "return", "}", "call:EncodeToString", "return"] ∧
+    Sso.Generated.skel_aead_Unmarshal =
+      ["call:DecodeString", "if{", "return", "}", "call:EncodeToString", "if{", "call:Errorf", "return", "}", "call:Decrypt", "if{", "return", "}", "call:NewBuffer", "call:NewReader", "if{", "return", "}", "call:Copy", "call:Bytes", "call:Unmarshal", "if{", "return", "}", "return"] ∧
+    Sso.Generated.skel_aead_GenerateKey =
+      ["call:GenerateKey", "return"] ∧
+    Sso.Generated.skel_sessions_MarshalSession =
+      ["call:Marshal", "return"] := by decide
+
 end Sso.Seal
